@@ -236,3 +236,209 @@ M2('c20-both-options-responders-append-allow', 'C20', 'R6',
    [{'file': _RESPONDERS, 'old': "resp.set_header('Allow', allowed)", 'new': "resp.append_header('Allow', allowed)", 'count': 2}], also=('C02',))
 M2('c20-options-responder-allow-from-live-list', 'C20', 'R6',
    [{'file': _RESPONDERS, 'old': "resp.set_header('Allow', allowed)", 'new': "resp.set_header('Allow', ', '.join(allowed_methods))", 'count': 2}], also=('C02',))
+
+
+# ---------------------------------------------------------------------------
+# Second preserving wave (k2-*): every shape the rules now READ has a "refactoring + break" operator - the refactoring alone is silent
+# (verified on scratch copies), the same refactoring with the clause broken is reported.
+# ---------------------------------------------------------------------------
+_APP = 'falcon/app.py'
+_LOG_IMPORT = {'file': MW, 'old': "from typing import Any", 'new': "import logging\nfrom typing import Any"}
+_LOG_DEF = {'file': MW, 'old': "class CORSMiddleware(object):", 'new': "_logger = logging.getLogger(__name__)\n\n\nclass CORSMiddleware(object):"}
+_GATE2 = """        if self.allow_origins != '*' and origin not in self.allow_origins:
+            return
+"""
+_PRE = """        if (
+            req_succeeded
+            and req.method == 'OPTIONS'
+            and req.get_header('Access-Control-Request-Method')
+        ):
+"""
+_SETS = """                resp.set_header('Access-Control-Allow-Methods', allow)
+                resp.set_header('Access-Control-Allow-Headers', allow_headers)
+                resp.set_header('Access-Control-Max-Age', '86400')  # 24 hours
+"""
+_AM_TEST = """            if (
+                self._cors_enable
+                and len(
+                    [
+                        mc
+                        for mc in self._unprepared_middleware + middleware  # type: ignore[operator]
+                        if isinstance(mc, CORSMiddleware)
+                    ]
+                )
+                > 1
+            ):
+                raise ValueError(
+                    'CORSMiddleware is not allowed in conjunction with '
+                    'cors_enable (which already constructs one instance)'
+                )
+"""
+_ADD_ROUTE = "    def add_route(self, uri_template: str, resource: object, **kwargs: Any) -> None:"
+_RAISE = "                raise ValueError('CORSMiddleware is not allowed in conjunction with cors_enable')\n"
+
+# k2-c20-4 (module-level logger calls are no-op statements) + a withdrawal replaced by the log call / the refusing return dropped
+M2('c20-k2-logging-replaces-a-withdrawal', 'C20', 'R3', [_LOG_IMPORT, _LOG_DEF, {
+    'file': MW, 'old': "                resp.delete_header('Access-Control-Allow-Credentials')\n",
+    'new': "                _logger.debug('CORS: preflight from %r denied (no Allow)', origin)\n"}])
+M2('c20-k2-logging-replaces-the-refusing-return', 'C20', 'R1', [_LOG_IMPORT, _LOG_DEF, {
+    'file': MW, 'old': _GATE2,
+    'new': "        if self.allow_origins != '*' and origin not in self.allow_origins:\n            _logger.debug('CORS: origin %r is not allowed', origin)\n"}])
+
+# duplicate-CORS refusal read through single-assignment locals, one-expression helpers, a refusing helper (App.add_middleware)
+M('c20-k2-refusal-local-list-counts-incoming-only', 'C20', 'R4', _APP, _AM_TEST,
+  "            cors = [mc for mc in middleware if isinstance(mc, CORSMiddleware)]\n            if self._cors_enable and len(cors) > 1:\n" + _RAISE)
+M('c20-k2-refusal-nested-count-without-flag', 'C20', 'R4', _APP, _AM_TEST,
+  "            count = len([mc for mc in self._unprepared_middleware + middleware if isinstance(mc, CORSMiddleware)])\n            if count > 1:\n" + _RAISE)
+M('c20-k2-refusal-registered-alias-unused', 'C20', 'R4', _APP, _AM_TEST,
+  "            registered = self._unprepared_middleware\n            if self._cors_enable and len([mc for mc in middleware if isinstance(mc, CORSMiddleware)]) > 1:\n" + _RAISE)
+M2('c20-k2-count-helper-counts-incoming-only', 'C20', 'R4', [
+    {'file': _APP, 'old': _AM_TEST, 'new': "            if self._cors_enable and self._count_cors(middleware) > 1:\n" + _RAISE},
+    {'file': _APP, 'old': _ADD_ROUTE, 'new': "    def _count_cors(self, middleware):\n        return len([mc for mc in middleware if isinstance(mc, CORSMiddleware)])\n\n" + _ADD_ROUTE}])
+M2('c20-k2-refusing-method-counts-incoming-only', 'C20', 'R4', [
+    {'file': _APP, 'old': _AM_TEST, 'new': "            self._refuse_second_cors(middleware)\n"},
+    {'file': _APP, 'old': _ADD_ROUTE, 'new': """    def _refuse_second_cors(self, middleware):
+        if not self._cors_enable:
+            return
+        if sum(1 for mc in middleware if isinstance(mc, CORSMiddleware)) > 1:
+            raise ValueError('CORSMiddleware is not allowed in conjunction with cors_enable')
+
+""" + _ADD_ROUTE}])
+M2('c20-k2-refusing-function-without-flag', 'C20', 'R4', [
+    {'file': _APP, 'old': _AM_TEST, 'new': "            _refuse_second_cors(self._unprepared_middleware, middleware)\n"},
+    {'file': _APP, 'old': "\nclass App:", 'new': """
+def _refuse_second_cors(registered, incoming):
+    if len([mc for mc in registered + incoming if isinstance(mc, CORSMiddleware)]) > 1:
+        raise ValueError('CORSMiddleware is not allowed in conjunction with cors_enable')
+
+
+class App:"""}])
+M2('c20-k2-refusing-method-called-after-the-write', 'C20', 'R4', [
+    {'file': _APP, 'old': _AM_TEST, 'new': ""},
+    {'file': _APP, 'old': "            self._unprepared_middleware += middleware  # type: ignore[arg-type]\n",
+     'new': "            self._unprepared_middleware += middleware  # type: ignore[arg-type]\n            self._refuse_second_cors([])\n"},
+    {'file': _APP, 'old': _ADD_ROUTE, 'new': """    def _refuse_second_cors(self, middleware):
+        if not self._cors_enable:
+            return
+        if sum(1 for mc in self._unprepared_middleware + middleware if isinstance(mc, CORSMiddleware)) > 1:
+            raise ValueError('CORSMiddleware is not allowed in conjunction with cors_enable')
+
+""" + _ADD_ROUTE}])
+
+# cors_enable wiring of App.__init__: must-analysis "the collection handed to add_middleware holds the instance"
+_TRY_WIRING = """                try:
+                    # NOTE(kgriffs): Check to see if middleware is an
+                    #   iterable, and if so, append the CORSMiddleware
+                    #   instance.
+                    middleware = list(middleware)  # type: ignore[arg-type]
+                    middleware.append(cm)  # type: ignore[arg-type]
+                except TypeError:
+                    # NOTE(kgriffs): Assume the middleware kwarg references
+                    #   a single middleware component.
+                    middleware = [middleware, cm]
+"""
+M('c20-k2-wiring-flag-refactoring-single-component-loses-instance', 'C20', 'R4', _APP, _TRY_WIRING, """                single = False
+                try:
+                    components = list(middleware)
+                except TypeError:
+                    single = True
+                if single:
+                    middleware = [middleware]
+                else:
+                    components.append(cm)
+                    middleware = components
+""")
+M('c20-k2-wiring-rebinding-after-append', 'C20', 'R4', _APP, "                    middleware.append(cm)  # type: ignore[arg-type]\n",
+  "                    middleware.append(cm)  # type: ignore[arg-type]\n                    middleware = middleware[:-1]\n")
+M('c20-k2-wiring-empty-tuple', 'C20', 'R4', _APP, "                middleware = [cm]\n", "                middleware = ()\n")
+
+# interpreter vocabulary: bool(), small literal collections, walrus, bound-method locals, loops over literal pairs, keyword arguments, cast, staticmethod helpers
+M2('c20-k2-bool-helper-drops-success-flag', 'C20', 'R4', [
+    {'file': MW, 'old': _PRE, 'new': "        if self._is_preflight(req, req_succeeded):\n"},
+    {'file': MW, 'old': "    async def process_response_async", 'new': """    def _is_preflight(self, req, req_succeeded):
+        return req.method == 'OPTIONS' and bool(req.get_header('Access-Control-Request-Method'))
+
+    async def process_response_async"""}])
+M('c20-k2-small-tuple-admits-get', 'C20', 'R4', MW, "            and req.method == 'OPTIONS'\n", "            and req.method in ('OPTIONS', 'GET')\n")
+M('c20-k2-walrus-origin-gate-dropped', 'C20', 'R1', MW, """        origin = req.get_header('Origin')
+        if origin is None:
+            return
+""", "        if (origin := req.get_header('Origin')) is None:\n            pass\n")
+M('c20-k2-bound-method-local-above-gate', 'C20', 'R1', MW, """        origin = req.get_header('Origin')
+        if origin is None:
+            return
+""", """        origin = req.get_header('Origin')
+        if origin is None:
+            return
+        set_header = resp.set_header
+        if self.expose_headers:
+            set_header('Access-Control-Expose-Headers', self.expose_headers)
+""")
+M('c20-k2-pairs-loop-missing-max-age', 'C20', 'R4', MW, _SETS, """                for name, value in (
+                    ('Access-Control-Allow-Methods', allow),
+                    ('Access-Control-Allow-Headers', allow_headers),
+                ):
+                    resp.set_header(name, value)
+""")
+M('c20-k2-pairs-loop-wrong-methods-value', 'C20', 'R4', MW, _SETS, """                for name, value in (
+                    ('Access-Control-Allow-Methods', allow_headers),
+                    ('Access-Control-Allow-Headers', allow_headers),
+                    ('Access-Control-Max-Age', '86400'),
+                ):
+                    resp.set_header(name, value)
+""")
+M('c20-k2-keyword-delete-wrong-header', 'C20', 'R3', MW, "                resp.delete_header('Access-Control-Allow-Credentials')\n",
+  "                resp.delete_header(name='Access-Control-Allow-Origin')\n")
+M2('c20-k2-cast-wrong-value', 'C20', 'R4', [
+    {'file': MW, 'old': "from typing import Any", 'new': "from typing import cast, Any"},
+    {'file': MW, 'old': "                resp.set_header('Access-Control-Allow-Methods', allow)\n",
+     'new': "                resp.set_header('Access-Control-Allow-Methods', cast(str, allow_headers))\n"}])
+M2('c20-k2-staticmethod-gate-inverted', 'C20', None, [
+    {'file': MW, 'old': _GATE2, 'new': "        if self._origin_refused(self.allow_origins, origin):\n            return\n"},
+    {'file': MW, 'old': "    async def process_response_async", 'new': """    @staticmethod
+    def _origin_refused(allow_origins, origin):
+        return allow_origins != '*' and origin in allow_origins
+
+    async def process_response_async"""}])
+M('c20-k2-assert-replaces-credentials-test', 'C20', 'R2', MW,
+  "            if self.allow_credentials == '*' or origin in self.allow_credentials:\n",
+  "            assert self.allow_credentials is not None\n            if True:\n")
+
+# k3-c02-2: the default OPTIONS responders compose the response in a shared module-level helper; R4 looks through it
+_RSP = 'falcon/responders.py'
+_OPT_BODY = """            resp.status = HTTP_200
+            resp.set_header('Allow', allowed)
+            resp.set_header('Content-Length', '0')
+"""
+_OPT_BODY_SYNC = """        resp.status = HTTP_200
+        resp.set_header('Allow', allowed)
+        resp.set_header('Content-Length', '0')
+"""
+
+
+def _k3_options_helper(id, body, also=('C02',)):
+    M2(id, 'C20', 'R4', [
+        {'file': _RSP, 'old': _OPT_BODY, 'new': "            _set_options_response(resp, allowed)\n"},
+        {'file': _RSP, 'old': _OPT_BODY_SYNC, 'new': "        _set_options_response(resp, allowed)\n"},
+        {'file': _RSP, 'old': "\ndef create_default_options(", 'new': "\ndef _set_options_response(resp, allowed):\n" + body + "\n\ndef create_default_options("}], also=also)
+
+
+_k3_options_helper('c20-k3-options-helper-forgets-allow', "    resp.status = HTTP_200\n    resp.set_header('Content-Length', '0')\n")
+_k3_options_helper('c20-k3-options-helper-allow-on-one-branch', "    resp.status = HTTP_200\n    if allowed:\n        resp.set_header('Allow', allowed)\n    resp.set_header('Content-Length', '0')\n")
+
+# static route: the OPTIONS branch read through equivalent spellings of the test and through an Allow-setting helper
+_ST = 'falcon/routing/static.py'
+_ST_OPT = """        if req.method == 'OPTIONS':
+            # it's likely a CORS request. Set the allow header to the appropriate value.
+            resp.set_header('Allow', 'GET')
+            resp.set_header('Content-Length', '0')
+            return
+"""
+M('c20-k3-static-inverted-test-without-allow', 'C20', 'R4', _ST, _ST_OPT + "\n",
+  "        if req.method != 'OPTIONS':\n            pass\n        else:\n            resp.set_header('Content-Length', '0')\n            return\n\n")
+M('c20-k3-static-method-local-membership-without-allow', 'C20', 'R4', _ST, _ST_OPT,
+  "        method = req.method\n        if method in ('OPTIONS',):\n            resp.set_header('Content-Length', '0')\n            return\n")
+M2('c20-k3-static-options-helper-without-allow', 'C20', 'R4', [
+    {'file': _ST, 'old': _ST_OPT, 'new': "        if req.method == 'OPTIONS':\n            self._answer_options(resp)\n            return\n"},
+    {'file': _ST, 'old': "    def __call__(self, req: Request, resp: Response, **kw: Any) -> None:",
+     'new': "    def _answer_options(self, resp):\n        resp.set_header('Content-Length', '0')\n\n    def __call__(self, req: Request, resp: Response, **kw: Any) -> None:"}])
